@@ -1,15 +1,16 @@
 package main
 
 import (
-	"errors"
 	"bytes"
 	"encoding/base64"
 	"encoding/binary"
 	"encoding/json"
+	"errors"
 	"fmt"
 	"net"
 	"os"
 	"path/filepath"
+	"sort"
 	"strconv"
 	"strings"
 	"sync"
@@ -60,7 +61,21 @@ func freeUDPPort() int {
 	return c.LocalAddr().(*net.UDPAddr).Port
 }
 
+// newGwRig starts a forwarder on a free port; binding can lose a race for the port with another
+// process (the forwarder listens on all interfaces), so a rig that does not answer is retried.
 func newGwRig(dir string, checksOff bool, nsock int) (*gwRig, error) {
+	var err error
+	for attempt := 0; attempt < 5; attempt++ {
+		var r *gwRig
+		if r, err = newGwRigOnce(dir, checksOff, nsock); err == nil {
+			return r, nil
+		}
+		time.Sleep(50 * time.Millisecond)
+	}
+	return nil, err
+}
+
+func newGwRigOnce(dir string, checksOff bool, nsock int) (*gwRig, error) {
 	st, err := storage.CreateStorage(filepath.Join(dir, fmt.Sprintf("gw-%d.db", time.Now().UnixNano())))
 	if err != nil {
 		return nil, err
@@ -97,12 +112,14 @@ func newGwRig(dir string, checksOff bool, nsock int) (*gwRig, error) {
 		}(c, ch)
 	}
 	// wait until the forwarder answers
-	deadline := time.Now().Add(5 * time.Second)
+	deadline := time.Now().Add(3 * time.Second)
 	for {
 		if _, ok := r.sync(0, 100*time.Millisecond); ok {
 			break
 		}
 		if time.Now().After(deadline) {
+			r.close()
+			st.Close()
 			return nil, fmt.Errorf("forwarder on port %d does not answer", r.port)
 		}
 	}
@@ -232,6 +249,7 @@ func runGw(c *ctx) error {
 		ops = append(ops, gwOp{Op: "reset", Lean: leanReqs[0]})
 		euis := [][]byte{r.Bytes(8), r.Bytes(8), {0x80, 1, 2, 3, 4, 5, 6, 0xff}, {0, 0, 0, 0, 0, 0, 0, 1}}
 		registered := map[string]bool{}
+		pulled := map[string]int{} // gateway EUI -> socket of its last complete PULL_DATA
 		nops := 10 + r.Intn(14)
 		for k := 0; k < nops; k++ {
 			eui := euis[r.Intn(len(euis))]
@@ -335,6 +353,10 @@ func runGw(c *ctx) error {
 						return nil
 					}
 				}
+				if id == 2 && len(d) >= 12 {
+					pulled[string(eui)] = sock
+				}
+				c.inflight("gw", append(append([]gwOp{}, ops...), gwOp{Op: "datagram in flight", Lean: fmt.Sprintf("gw.dgram %s %d %s %s", rig.sockHost(sock), rig.sockPort(sock), hx.H(d), rx)}))
 				rig.send(sock, d)
 				acks, ok := rig.sync(sock, 3*time.Second)
 				storage.VerifGate = nil
@@ -382,15 +404,33 @@ func runGw(c *ctx) error {
 					clock = clocks[r.Intn(len(clocks))]
 				}
 				delay := uint8([]int{1, 5, 1, 5, 0, 2, 255}[r.Intn(7)])
+				if r.Intn(3) == 0 {
+					// transmission time exactly at the wrap of the gateway's 32-bit microsecond clock
+					delay = uint8([]int{1, 5, 2}[r.Intn(3)])
+					clock = uint32(1<<32 - 1000000*int64(delay))
+				}
 				ch := r.Intn(9)
 				raw := r.Bytes(1 + r.Intn(60))
 				datr := datrs[r.Intn(len(datrs))]
 				host := rig.sockHost(r.Intn(len(rig.socks)))
+				if len(pulled) > 0 && r.Intn(4) != 0 {
+					// a gateway that keeps a PULL_DATA path open, addressed at the host it pulls from
+					ks := make([]string, 0, len(pulled))
+					for k := range pulled {
+						ks = append(ks, k)
+					}
+					sort.Strings(ks)
+					k := ks[r.Intn(len(ks))]
+					eui = []byte(k)
+					copy(e.Octets[:], eui)
+					host = rig.sockHost(pulled[k])
+				}
 				ver := uint8(r.Intn(4))
 				freq := []float32{868.1, 868.3, 868.5, 867.1, 867.3, 867.5, 867.7, 867.9, 868.1}[ch]
+				c.inflight("gw", append(append([]gwOp{}, ops...), gwOp{Op: "downlink in flight", Lean: fmt.Sprintf("gw.down %s %s %d %d %d %s %s %s", hx.H(eui), host, clock, delay, ver, f32(freq), datr, hx.H(raw))}))
 				rig.fwd.Input() <- server.GatewayPacket{RawMessage: raw,
-					Radio:   server.RadioContext{Frequency: freq, DataRate: datr, RX1Delay: delay, Band: defBand, Channel: uint8(ch)},
-					Gateway: server.GatewayContext{GatewayEUI: e, GatewayHost: host, GatewayClock: clock, ProtocolVersion: ver},
+					Radio:      server.RadioContext{Frequency: freq, DataRate: datr, RX1Delay: delay, Band: defBand, Channel: uint8(ch)},
+					Gateway:    server.GatewayContext{GatewayEUI: e, GatewayHost: host, GatewayClock: clock, ProtocolVersion: ver},
 					ReceivedAt: time.Now(), Deadline: 1}
 				got := "none"
 				for si := range rig.socks {
